@@ -461,7 +461,9 @@ func main() {
 		var a artefact
 		_ = json.Unmarshal(bb, &a)
 		what := ""
-		if a.Part == "e2e" {
+		if a.Part == "rich" {
+			what = replayRich(a.Seq)
+		} else if a.Part == "e2e" {
 			what = runE2E(a.Seq)
 		} else {
 			what, _, _ = runSeq(a.Seq)
@@ -570,6 +572,7 @@ func main() {
 		}
 	})
 	r.Set("end_to_end_depth", e2eDepth)
+	runRich(r)
 	r.Alias("traces_validated_against_impl", "transitions")
 	r.Set("rule_rhp_connection", "part 1: breadth-first search to depth "+fmt.Sprint(depth)+" over {register a call (at most "+fmt.Sprint(maxCalls)+"), dispatch response for call i (pending or completed), dispatch response for an unknown id, caller i receives, caller i gives up, dispatch an incoming request, dispatch a message of unknown type} on a real connection (registration and cleanup steps of call() exposed by the verif overlay, dispatcher handleMessage called synchronously), states deduplicated by (per call: state, queued responses, answered) + number of registered entries; oracle: no dispatch blocks, a caller receives exactly the first response dispatched for its request, no response is queued for a completed call, no entry outlives its call, Close returns. part 2: a real Connection.Call over an in-memory pipe, the peer answers with every frame sequence up to depth "+fmt.Sprint(e2eDepth)+" over {ok, ok x32, error, unknown id, request, unknown message type, unexpected body, undecodable frame}; oracle: the peer's frames are all read, Call returns one of the responses sent for its id (each frame is dispatched by its own goroutine) or the caller's cancellation, a later Call answered honestly succeeds (after an undecodable frame: fails, does not hang), Close returns")
 	r.Assume("part 1 models the caller by the registration / receive / cleanup steps of call(); part 2 runs the real Call free-running (goroutine timing not controlled) and only asserts outcomes that hold under every timing", "hang detection uses a "+watchdog.String()+" watchdog; on a tree where the property holds no operation waits for it")
